@@ -1232,14 +1232,14 @@ pub fn labels_of(s: &Script) -> (bool, Vec<&'static str>) {
 pub fn run(ctx: &Ctx) {
     ctx.rule("connection scripts of 1..6 steps over methods {GET,POST,PUT,DELETE,OPTIONS} x targets {echo, empty body, CORS-configured, panicking handler, 70 KB body, unrouted} x Connection {absent, close, keep-alive in four letter cases} x HTTP/1.0|1.1 x optional Content-Length body (incl. a body that looks like a request, bodies > 8 KiB) x {well-formed, 7 malformed kinds, idle past the timeout}, pool size 1..4, per-request / byte-wise / random segmentation of the client byte stream, sequential or pipelined boundaries; a reference connection model predicts each response (status, version, Date, Server, CORS, Content-Length framing, body) and where the connection closes; closure and keep-alive are decided by probes, not timeouts. Non-trivial = >=2 requests, a split inside a request, or a malformed / timeout / panic / pipelined element; distinct by script");
     ctx.assume("real App on a loopback alias per shard; the client owns its write schedule, the kernel may coalesce segments (coverage, not soundness); pipelined boundaries are judged leniently (known finding readahead-loss); 400/408 responses are only required to carry their status and to be followed by a close; connection timeout 1 s, idle 1.6 s, a stray 408 is inconclusive when the client itself was slow");
-    let cases = ctx.tier.pick(800u32, 20_000u32);
+    let cases = ctx.share(ctx.tier.pick(800u32, 20_000u32)).max(16);
     let nshards = 16usize;
     crate::engine::shards(nshards, |i| {
         let ip = format!("127.0.1.{}", 1 + i);
         pt::run(
             ctx,
             "script",
-            pt::Opts::new(cases / nshards as u32).salt(100 + i as u64).shrink_iters(24),
+            pt::Opts::new(cases / nshards as u32).salt(ctx.salt_of(100 + i as u64)).shrink_iters(24),
             arb_script(),
             |s| serde_json::to_value(s).unwrap(),
             |s| {
@@ -1258,7 +1258,7 @@ pub fn run(ctx: &Ctx) {
         );
     });
     // pool recovery scenarios
-    let rec = ctx.tier.pick(16usize, 200usize);
+    let rec = ctx.share(ctx.tier.pick(16u32, 200u32)).max(1) as usize;
     let found: Mutex<Vec<(Fail, J)>> = Mutex::new(Vec::new());
     let next = std::sync::atomic::AtomicUsize::new(0);
     crate::engine::shards(nshards, |i| loop {
@@ -1279,7 +1279,9 @@ pub fn run(ctx: &Ctx) {
         }
     });
     ctx.sample("pool-recovery", || json!({"scenario": "N..N+2 handler panics on an N-thread pool, then N simultaneous keep-alive connections must all be answered"}));
-    extras(ctx, "127.0.1", &start_sync, true, "");
+    if ctx.chunk.map_or(true, |(k, _)| k == 0) {
+        extras(ctx, "127.0.1", &start_sync, true, "");
+    }
     for (f, c) in found.into_inner().unwrap() {
         if !ctx.tolerate(&f) {
             ctx.violation(f, "recovery", c);
